@@ -96,7 +96,8 @@ var decSpecialTags = []string{"BAPM", "BIRT", "BURI", "DATE", "DEAT", "EVEN", "F
 	"NAME", "NICK", "NOTE", "PLAC", "RESI", "ROMN", "SEX", "SOUR", "TYPE", "_FID", "_FSFTID", "_UID"}
 var decCustomTags = []string{"_CUSTOM", "X", "X1", "123", "0", "a_b", "_", "lower", "Z9_", "1NAME", "TAG2",
 	// case variants of registered tags are *different*, unregistered tags (plain nodes)
-	"name", "Name", "Date", "date", "_uid", "Birt", "sex", "Plac", "note", "Resi", "even", "sour", "Type", "nAME"}
+	"name", "Name", "Date", "date", "_uid", "Birt", "sex", "Plac", "note", "Resi", "even", "sour", "Type", "nAME",
+	"husb", "Wife", "chil", "Husb", "fam", "Indi", "indi", "Fam", "cHIL", "wife"}
 var decValues = []string{"", "", "", "x", "Joe /Bloggs/", "@I1@", "@F1@", "0", "1", "12 NOTE x", "1 NAME Bob", "0 @I9@ INDI",
 	"abc@", "@", "@@", "a  b", "3 Sep 1943", "Bet. 1900 and 1910", "(phrase)", "M", "F", "é ü 日本", "\xff\xfe", "a\tb",
 	"x y", "-", "HUSB", "Oldtown, , , Someland", "EE13561DDB204985BFFDEEBF82A5226C5B2E", "v w x y z", "=", "'\"<>&"}
@@ -177,6 +178,13 @@ func decGenForest(r *Rand, maxNodes int) []*TNode {
 // decBuild builds the forest through the public API (NewNode, AddNode, AddIndividual, AddFamily,
 // SetHusbandPointer / SetWifePointer / AddChild for role nodes) and returns the document.
 func decBuild(f []*TNode, bom bool) (doc *gedcom.Document, err error) {
+	doc, _, err = decBuildMap(f, bom)
+	return
+}
+
+// decBuildMap also returns the node that was built for every forest node.
+func decBuildMap(f []*TNode, bom bool) (doc *gedcom.Document, built map[*TNode]gedcom.Node, err error) {
+	built = map[*TNode]gedcom.Node{}
 	defer func() {
 		if r := recover(); r != nil {
 			err = fmt.Errorf("panic while building: %v", r)
@@ -212,21 +220,134 @@ func decBuild(f []*TNode, bom bool) (doc *gedcom.Document, err error) {
 		for _, k := range t.Kids {
 			n.AddNode(build(k))
 		}
+		built[t] = n
 		return n
 	}
 	for _, t := range f {
 		doc.AddNode(build(t))
 	}
-	return doc, nil
+	return doc, built, nil
+}
+
+// dumpParts / dumpForestParts: level, tag, value and pointer of every node in document order,
+// from a built document and from the forest it was built from.
+func dumpParts(ns gedcom.Nodes) string {
+	var sb strings.Builder
+	var walk func(n gedcom.Node, d int)
+	walk = func(n gedcom.Node, d int) {
+		fmt.Fprintf(&sb, " %d %s %s %s", d, hexs(n.Tag().Tag()), hexs(n.Value()), hexs(n.Pointer()))
+		for _, k := range n.Nodes() {
+			walk(k, d+1)
+		}
+	}
+	for _, n := range ns {
+		walk(n, 0)
+	}
+	return sb.String()
+}
+
+func dumpForestParts(f []*TNode) string {
+	var sb strings.Builder
+	var walk func(t *TNode, d int)
+	walk = func(t *TNode, d int) {
+		fmt.Fprintf(&sb, " %d %s %s %s", d, hexs(t.Tag), hexs(t.Value), hexs(t.Ptr))
+		for _, k := range t.Kids {
+			walk(k, d+1)
+		}
+	}
+	for _, t := range f {
+		walk(t, 0)
+	}
+	return sb.String()
+}
+
+// decShare puts one already built node instance at a second position of the document (the API
+// allows it: AddNode takes any node) and the same forest node at the same second position of the
+// forest. The shared subtree holds no record or family-role node, so it is legal wherever it
+// goes; the new parent is not inside it, so the forest stays finite.
+func decShare(r *Rand, f []*TNode, doc *gedcom.Document, built map[*TNode]gedcom.Node) ([]*TNode, bool) {
+	var all []*TNode
+	var walk func(t *TNode)
+	walk = func(t *TNode) {
+		all = append(all, t)
+		for _, k := range t.Kids {
+			walk(k)
+		}
+	}
+	for _, t := range f {
+		walk(t)
+	}
+	if len(all) == 0 {
+		return f, false
+	}
+	var plain func(t *TNode) bool
+	plain = func(t *TNode) bool {
+		switch t.Tag {
+		case "INDI", "FAM", "HUSB", "WIFE", "CHIL":
+			return false
+		}
+		for _, k := range t.Kids {
+			if !plain(k) {
+				return false
+			}
+		}
+		return true
+	}
+	var inside func(t, root *TNode) bool
+	inside = func(t, root *TNode) bool {
+		if t == root {
+			return true
+		}
+		for _, k := range root.Kids {
+			if inside(t, k) {
+				return true
+			}
+		}
+		return false
+	}
+	for try := 0; try < 20; try++ {
+		src := all[r.Intn(len(all))]
+		if !plain(src) || built[src] == nil {
+			continue
+		}
+		if r.Intn(4) == 0 {
+			doc.AddNode(built[src])
+			return append(f, src), true
+		}
+		dst := all[r.Intn(len(all))]
+		if inside(dst, src) || built[dst] == nil {
+			continue
+		}
+		built[dst].AddNode(built[src])
+		dst.Kids = append(dst.Kids, src)
+		return f, true
+	}
+	return f, false
 }
 
 // decDumpAbstract is the dump the built forest must have after a round trip (kinds from the
 // build itself, so no table is shared with the model).
-func decRoundTrip(c *Ctx, f []*TNode, bom bool) {
-	doc, err := decBuild(f, bom)
+func decRoundTrip(c *Ctx, f []*TNode, bom bool) { decRoundTripOpt(c, f, bom, false) }
+
+func decRoundTripOpt(c *Ctx, f []*TNode, bom bool, share bool) {
+	doc, builtNodes, err := decBuildMap(f, bom)
 	in := map[string]interface{}{"forest": encForest(f), "bom": bom}
 	if err != nil {
 		c.Oracle("", "a legal forest cannot be built through the public API", in, err.Error(), "a document")
+		return
+	}
+	if share {
+		var shared bool
+		if f, shared = decShare(c.R, f, doc, builtNodes); shared {
+			c.Count("shared-instance")
+			in["forest"] = encForest(f)
+			in["shared"] = "one node instance sits at two positions"
+		}
+	}
+	// the document holds the parts it was built from (a constructor that changes a tag, value or
+	// pointer would otherwise make both sides of the round trip agree on the wrong node)
+	if got, want := dumpParts(doc.Nodes()), dumpForestParts(f); got != want {
+		c.Oracle("", "the document built through the public API does not hold the tag, value and pointer it was given at every position", in, got, want)
 		return
 	}
 	text := doc.String()
@@ -422,7 +543,7 @@ func init() {
 		n := c.N(20000, 300000)
 		maxNodes := c.N(60, 400)
 		for i := 0; i < n; i++ {
-			decRoundTrip(c, decGenForest(c.R, maxNodes), c.R.Bool())
+			decRoundTripOpt(c, decGenForest(c.R, maxNodes), c.R.Bool(), i%8 == 7)
 		}
 	}
 }
